@@ -34,7 +34,8 @@ Proof.
   destruct b as [k|k|k sl|k sl| | | | |k]; try destruct k; try destruct sl; destruct r;
     open_cstep HS; split_ifs HS; try discriminate HS;
     injection HS as <- <- <-;
-    unfold Invc, phase, J, pend in *; cbn [set var_beq isSleep owes idle] in *; cbv beta iota; lia.
+    unfold Invc, phase, J, pend in *; cbn [set var_beq isSleep owes idle] in *; cbv beta iota;
+    (split; [|split; [|split; [|split; [|split]]]]); try exact I; intros; lia.
 Qed.
 
 Lemma J_init a b : J (v (init a b)).
